@@ -173,7 +173,7 @@ pub fn lib_spec(r: &mut Rng, variety: bool, idx: usize) -> ElfSpec {
         rodata_before_text: false,
         data_gap_pages: 0,
         link_base: 0,
-        text_sec_skip: 0, moved_tables: false, force_dyn: false, note_name_last: false,
+        text_sec_skip: 0, moved_tables: false, force_dyn: false, note_name_last: false, small_align: false,
     };
     if variety {
         match r.below(8) {
@@ -200,7 +200,10 @@ pub fn lib_spec(r: &mut Rng, variety: bool, idx: usize) -> ElfSpec {
                 s.text_pages = s.text_pages.max(2);
                 s.text_sec_skip = r.pick_copy(&[0u64, 0x340, 0x7f8, 0xf00, 0xff0]);
             }
-            _ => {}
+            _ => {
+                // linked with `ld -n`: first segment not page aligned, alignment 8
+                s.small_align = r.coin();
+            }
         }
     }
     s
@@ -258,7 +261,7 @@ pub fn build_world(r: &mut Rng, cfg: &WorldCfg) -> Built {
         rodata_before_text: false,
         data_gap_pages: 0,
         link_base: 0,
-        text_sec_skip: 0, moved_tables: false, force_dyn: false, note_name_last: false,
+        text_sec_skip: 0, moved_tables: false, force_dyn: false, note_name_last: false, small_align: false,
     };
     let exe = elfgen::build(&exe_spec);
     if cfg.link_map {
@@ -486,7 +489,7 @@ pub fn build_world(r: &mut Rng, cfg: &WorldCfg) -> Built {
         rodata_before_text: false,
         data_gap_pages: 0,
         link_base: 0,
-        text_sec_skip: 0, moved_tables: false, force_dyn: false, note_name_last: false,
+        text_sec_skip: 0, moved_tables: false, force_dyn: false, note_name_last: false, small_align: false,
         };
         let img = elfgen::build(&spec);
         regions.push(RegionSpec {
